@@ -26,11 +26,22 @@ inductive Err where
   | keyError | valueError | typeError | invalidState | circuitError
   deriving DecidableEq, Repr, Inhabited
 
+/-- what `check_signature` may be told to expect for one input: `None` (a single input), an exact
+    group size, a `(min, max)` range with optional bounds, or something that is none of these -/
+inductive Expect where
+  | single
+  | exact (n : Nat)
+  | range (lo hi : Option Nat)
+  | malformed
+  deriving DecidableEq, Repr, Inhabited
+
 /-- classes of combinational blocks that differ in `start()`:
     `Not` (signature `{'_': 1}`), `Override` (`{'input': None, 'override': None}`),
-    `FuncBlock` with a function accepting anything (no constraint) -/
+    `FuncBlock` with a function accepting anything (no constraint),
+    a custom block whose `start()` calls `check_signature(esig)` -/
 inductive CCls where
   | not | ovr | any
+  | sig (esig : List (String × Expect))
   deriving DecidableEq, Repr, Inhabited
 
 inductive BKind where
@@ -168,13 +179,42 @@ def inputSignature (c : Circ) (b : String) : Except Err (List (String × Option 
   if (c.inputs b).isEmpty then .error .invalidState
   else .ok ((c.inputs b).map fun p => (p.1, p.2.sigVal))
 
-/-- `CBlock.check_signature` with exact expectations (dict comparison: order is irrelevant) -/
-def checkSignature (c : Circ) (b : String) (esig : List (String × Option Nat)) : Except Err Unit :=
+/-- the inner `valuediff_msg(name, value, expected)`: `true` = a message is returned, the item does
+    not match.  `value`: `None` for a single input, the size for a group (0 included) -/
+def valueDiff : Expect → Option Nat → Bool
+  | .single, none => false
+  | .single, some _ => true                 -- a group (of ANY size) where a single input is expected
+  | _, none => true                         -- a single input where a group is expected
+  | .exact n, some k => k != n
+  | .range lo hi, some k =>
+    (match lo with | some l => decide (k < l) | none => false) ||
+    (match hi with | some h => decide (k > h) | none => false)
+  | .malformed, some _ => true              -- `cmin, cmax = expected` fails: ValueError
+
+/-- Python's `bsig == esig` on the two dicts (a range never equals a number) -/
+def sigEq (bsig : List (String × Option Nat)) (esig : List (String × Expect)) : Bool :=
+  bsig.length == esig.length && esig.all fun p =>
+    match p.2, bsig.lookup p.1 with
+    | .single, some none => true
+    | .exact n, some (some k) => k == n
+    | _, _ => false
+
+/-- `bsig.keys() == esig.keys()` (both are dicts: no repeated keys) -/
+def sameKeys (bsig : List (String × Option Nat)) (esig : List (String × Expect)) : Bool :=
+  bsig.length == esig.length && esig.all fun p => (bsig.lookup p.1).isSome
+
+/-- `CBlock.check_signature` -/
+def checkSignature (c : Circ) (b : String) (esig : List (String × Expect)) : Except Err Unit :=
   match inputSignature c b with
   | .error e => .error e
   | .ok bsig =>
-    if bsig.length == esig.length && esig.all (fun p => bsig.lookup p.1 == some p.2) then .ok ()
-    else .error .valueError
+    if sigEq bsig esig then .ok ()
+    else if !sameKeys bsig esig then .error .valueError
+    else if esig.any (fun p =>
+        match bsig.lookup p.1 with
+        | some v => valueDiff p.2 v
+        | none => true) then .error .valueError
+    else .ok ()
 
 /-! ### `_validate_blk` -/
 
@@ -321,10 +361,11 @@ def finalize (c : Circ) : Circ × Option Err :=
       | (c2, some e) => (c2, some e)
       | (c2, none) => ({ c2 with finalized := true }, none)
 
-def expectedSig : CCls → Option (List (String × Option Nat))
-  | .not => some [("_", some 1)]
-  | .ovr => some [("input", none), ("override", none)]
+def expectedSig : CCls → Option (List (String × Expect))
+  | .not => some [("_", .exact 1)]
+  | .ovr => some [("input", .single), ("override", .single)]
   | .any => none
+  | .sig esig => some esig
 
 /-- `blk.start()` for all blocks in circuit order -/
 def startBlocks (c : Circ) : List String → Option Err
